@@ -68,7 +68,7 @@ def hist_suite(ctx, vh):
     simulation of the large config; every emitted behaviour is replayed on real replicas."""
     out = []
     mc = ctx.tlc("Replica", "MC_Replica_4.cfg" if ctx.thorough else "MC_Replica.cfg", timeout=3000, cache=True)
-    ctx.require_actions(mc, ["ActBegin", "ActPublish", "Deliver", "DeliverInit", "Commit", "SyncAll"]
+    ctx.require_actions(mc, ["ActBegin", "ActPublish", "Deliver", "DeliverInit", "DeliverBadMerge", "Commit", "SyncAll"]
                         + (["ActMerge"] if ctx.thorough else []))
     ini = ctx.tlc("Replica", "MC_Replica_init.cfg", timeout=900, cache=True)
     ctx.require_actions(ini, ["DeliverBad", "DeliverInit"])
